@@ -43,6 +43,12 @@ func c03(c *Ctx) {
 		r.Und("C03.R1", "re-encoder", "", "bytecode.EncodeAddress not found")
 		return
 	}
+	// ---- R6 little-endian helpers, R7 arms of the re-encoder and of the displacement reader
+	r.Floor("C03.R6", 4)
+	r.Floor("C03.R7", 6)
+	c03Helpers(p, r)
+	c03Arms(p, r, encode)
+	c03Overflow(p, r, encode)
 	// ---- R4 widening table
 	widen := c03Table(p, r)
 	// ---- R1 relocation loop: function that appends the result of a call reaching the re-encoder
